@@ -512,7 +512,12 @@ def build_request(rllen, fields, body=b""):
     rl = b"GET /" + b"a" * pad + b" HTTP/1.1"
     lines = [rl]
     for i, (kind, ln) in enumerate(fields):
-        name = {"plain": b"X-F%d" % i, "under": b"X_F%d" % i, "cl": b"Content-Length"}[kind]
+        name = {"plain": b"X-F%d" % i, "under": b"X_F%d" % i, "cl": b"Content-Length", "wscolon": b"X-W%d" % i}[kind]
+        if kind == "wscolon":
+            # a field that is long only through blanks between its name and the colon (accepted, and stripped, with the
+            # documented strip_header_spaces setting)
+            lines.append(name + (b" \t" * ln)[:max(0, ln - len(name) - 3)] + b": v")
+            continue
         if kind == "cl":
             val = b"%d" % len(body)
             val = b"0" * max(0, ln - len(name) - 2 - len(val)) + val
@@ -696,6 +701,18 @@ def c12(ctx):
                     fields = [("plain", 12)] * 3
                     fields[pos] = ("plain", ln)
                     add(*limit_record(ctx, {"limit_request_field_size": S}, 14, fields, ck, rng))
+    # fields whose size comes from whitespace before the colon, with strip_header_spaces on
+    for S in (32, 64, 200):
+        for d in (-3, -1, 0, 1, 2, 30, 400):
+            for ck in ("whole", "rand"):
+                add(*limit_record(ctx, {"limit_request_field_size": S, "strip_header_spaces": True}, 14,
+                                  [("plain", 12), ("wscolon", S + d), ("plain", 12)], ck, rng))
+    # limit_request_fields = 0 / out of range means "the hard maximum": requests within all limits, heads in several reads
+    for F in (0, 40000):
+        for ck in ("whole", "mid", "eol", "eoh-1", "rand", "bytes"):
+            add(*limit_record(ctx, {"limit_request_fields": F}, 14, [("plain", 20)] * 5, ck, rng, body=b""))
+            add(*limit_record(ctx, {"limit_request_fields": F, "limit_request_field_size": 0, "limit_request_line": 0}, 14,
+                              [("plain", 30), ("cl", 19)], ck, rng, body=b"b" * 50))
     # combined small limits, followed by a body and a pipelined request in the same reads
     for (L, F, S) in [(64, 2, 32), (0, 1, 0), (20, 3, 16), (4094, 4, 50), (0, 2, 20)] + ([] if ctx.quick else [(100, 5, 50), (0, 100, 0)]):
         for ck in ("whole", "mid", "eoh-1", "rand", "crlf", "eol"):
